@@ -35,17 +35,31 @@ def parse(text, cid):
         return trees.dump(d)[1], trees.block_line_numbers(d), dict(d.footnotes), last
 
 
+def fresh_parse(args):
+    """run in a process that has parsed nothing else: the reference for a text on its own"""
+    text, cid = args
+    try:
+        return parse(text, cid)
+    except Exception as e:
+        return 'EXC %s: %s' % (type(e).__name__, e)
+
+
+FRESH = {}
+
+
 def worker(args):
     a, b, cid = args
     try:
         a = nl(a)
-        ta, la, fa, last = parse(a, cid)
+        # B on its own must not have been influenced by what this process parsed before: for the designed pairs the reference comes
+        # from a fresh interpreter, and the combined text is parsed BEFORE its parts here
+        tab, lab, fab, _ = parse(a + '\n' + b, cid)
+        ta, la, fa, last = FRESH.get((a, cid)) or parse(a, cid)
         if fa or last not in CLOSED:
             return ('skip', 'A: ' + ('definitions' if fa else 'last block %s' % last))
-        tb, lb, fb, _ = parse(b, cid)
+        tb, lb, fb, _ = FRESH.get((b, cid)) or parse(b, cid)
         if fb:
             return ('skip', 'B: definitions')
-        tab, lab, fab, _ = parse(a + '\n' + b, cid)
         shift = a.count('\n') + 1
         want_t = ta + tb
         want_l = la + [x + shift for x in lb]
@@ -65,9 +79,9 @@ def run(ctx, only=None):
     rng = random.Random(ctx.seed)
     n = 2500 if ctx.quick() else 30000
     pool_texts = [t for t in inputs.mixed_stream(rng, n) + [docgen.gen_doc(rng)[0] for _ in range(n // 2)] if usable(t)]
-    tricky_b = ['    indented\n', '  - item\n', '---\n', '===\n', '```\nx\n', '> q\n', '| a |\n| - |\n', '</div>\n', '-->\n', '   continuation\n', '1. one\n', '# h\n',
+    tricky_b = ['<my-widget>\n\npara\n', '<x-y a="b">\ntext\n\nafter\n', '</my-widget>\n\npara\n', '    indented\n', '  - item\n', '---\n', '===\n', '```\nx\n', '> q\n', '| a |\n| - |\n', '</div>\n', '-->\n', '   continuation\n', '1. one\n', '# h\n',
                 '\n\n    code\n', ' | - |\n', '[x]\n', '  ===\n', '\tx\n', '~~~\n', 'x\n---\n']
-    tricky_a = ['para\n', '# h\n', 'h\n===\n', '***\n', '> quote\n', '> ```\n> x\n', '> - a\n', '| a |\n| - |\n| b |\n', '> <div>\n', 'a\n\n> b\nlazy\n', '- x\n\npara\n',
+    tricky_a = ['<!-- note -->\n\npara\n', '<pre>\nx\n</pre>\n\npara\n', '<?php x ?>\n\npara\n', '<!DOCTYPE x>\n\n# h\n', '```py\nc\n```\n\npara\n', '# h ##\n\npara\n', 'para\n', '# h\n', 'h\n===\n', '***\n', '> quote\n', '> ```\n> x\n', '> - a\n', '| a |\n| - |\n| b |\n', '> <div>\n', 'a\n\n> b\nlazy\n', '- x\n\npara\n',
                 '```\nc\n```\npara\n', '    code\n\npara\n', '<div>\nx\n</div>\n\npara\n', '> | a |\n> | - |\n', '> a\n> ===\n']
     pairs = [(a, b) for a in tricky_a for b in tricky_b]
     while len(pairs) < (6000 if ctx.quick() else 120000):
@@ -75,6 +89,13 @@ def run(ctx, only=None):
         b = rng.choice(tricky_b) + rng.choice(pool_texts) if rng.random() < 0.25 else rng.choice(pool_texts)
         pairs.append((a, b))
     jobs = [(a, b, cid) for (a, b) in pairs for cid in (0, 1, 3)]
+    # references for the designed texts from fresh interpreters (one process per text)
+    fresh_jobs = [(nl(t), c) for t in tricky_a for c in (0, 1, 3)] + [(t, c) for t in tricky_b for c in (0, 1, 3)]
+    with mp.get_context('fork').Pool(core.NPROC, maxtasksperchild=1) as pool:
+        for k, r in zip(fresh_jobs, pool.map(fresh_parse, fresh_jobs, chunksize=1)):
+            if not isinstance(r, str):
+                FRESH[k] = r
+    ctx.cov['references_from_fresh_interpreters'] = len(FRESH)
     with mp.Pool(core.NPROC) as pool:
         res = pool.map(worker, jobs, chunksize=100)
     kinds = {}
@@ -100,7 +121,8 @@ def run(ctx, only=None):
     ctx.cov['last_block_of_A'] = kinds
     ctx.count('distinct_nontrivial', nontriv)
     ctx.sample({'A': tricky_a[5], 'B': tricky_b[0], 'combined': tricky_a[5] + '\n' + tricky_b[0]})
-    xdoc.run(ctx, xd, cfgs=(0, 3))
+    designed = [nl(a) + '\n' + b for a in tricky_a for b in tricky_b]
+    xdoc.run(ctx, designed + tricky_b + xd, cfgs=(0, 3))
 
 
 def replay(ctx, obj):
